@@ -13,3 +13,5 @@ else
 fi
 cd /verif && ./check "$PROP" "$TIER" 2>&1 | grep -E "^(VIOLATION|KNOWN|HARNESS|C[0-9]+:|violation found|error)" | cut -c1-${CUT:-300}
 cd /repo && git reset -q --hard HEAD && git clean -fdq src unimock_macros tests 2>/dev/null
+# the run above rewrote evidence/<prop>.json from a patched tree: put the committed (clean) file back
+git -C /verif checkout -q -- "evidence/$PROP.json" 2>/dev/null
